@@ -514,6 +514,8 @@ class UnionMetaType(StructureMetaType):
             size = stream.tell() - start
             stream.seek(start)
             buf = stream.read(size)
+            if len(buf) != size:
+                raise EOFError(f"Read {len(buf)} bytes, but expected {size}")
         else:
             result = {}
             sizes = {}
